@@ -2,7 +2,11 @@
 
 Three parts (labelled in the evidence):
  (A) theorems of lean/AslModel/Props/C17.lean (option sources, DreheCodes involution, noninterference on the
-     per-line pipeline model, the generated obligation on the real callback table);
+     per-line pipeline model, the generated obligation on the real callback table) and of Props/C17_Flow.lean: the
+     information-flow inventory of the report options, regenerated every run from the clang AST of all translation units
+     of asl (translate/reportflow.py -> Generated/ReportFlow.lean) and joined with the hand-written classification
+     Spec/ReportObjects.lean - every object a report variable reaches is report data or a listed, justified exception;
+     this is what ties the abstract noninterference model to the C sources (C17_flow_model_premise);
  (B) correspondence: cmdarg.o's real ProcessCMD (linked into a probe with logging handlers) vs Model/CmdArg.lean,
      the real DreheCodes() (probe linked against the assembler's objects) vs Model/Drehe.lean, the pipeline model's
      code-file payload vs real .p files;
@@ -503,9 +507,25 @@ GEN_PROGS = [
 
 def run(args):
     res = common.Result("C17", args.tier, args.seed, "proof")
-    bdir, audit, proof_problems = common.standard_setup(res, "C17", ["AsParams"])
+    # ReportFlow: the information-flow inventory of the report options, regenerated from the clang AST of every translation
+    # unit of asl (translate/reportflow.py); a translator failure is a proof problem, the obligations are Props/C17_Flow.lean
+    bdir, audit, proof_problems = common.standard_setup(res, "C17", ["AsParams", "ReportFlow"])
     if bdir is None:
         return res.finish()
+    flow_stats, flow_bad = None, []
+    try:
+        from translate import reportflow
+        inv = reportflow.inventory(bdir)
+        flow_stats = reportflow.statistics(inv)
+        flow_stats["rows_covered_by_exception_class"] = reportflow.exception_classes(inv)
+        flow_bad = reportflow.unjustified(inv)
+        flow_stats["rows_without_classification_or_exception"] = len(flow_bad)
+    except Exception as ex:      # the verdict comes from the Lean obligation; this is the diagnostic view
+        log("C17: report-flow statistics unavailable: %s" % ex)
+    if flow_bad and not audit["ok"]:
+        proof_problems.append("report-flow inventory: %d flow(s) from a report option into objects that are neither classified as report data "
+                              "(lean/AslModel/Spec/ReportObjects.lean) nor listed as exception (Props/C17_Flow.lean): %s"
+                              % (len(flow_bad), json.dumps(flow_bad[:12])))
     ok = not any(p.startswith("driver does not build") for p in proof_problems)
     rng = common.rng_for(args.seed, "C17")
     spec_fail, corr_fail, samples = [], [], []
@@ -513,6 +533,16 @@ def run(args):
 
     def bump(k, n=1):
         dist[k] = dist.get(k, 0) + n
+
+    if flow_stats:
+        for k, v in flow_stats.items():
+            if isinstance(v, dict):
+                for k2, v2 in v.items():
+                    dist["flow:%s:%s" % (k, k2)] = v2
+            elif isinstance(v, list):
+                dist["flow:" + k] = ", ".join(v)
+            else:
+                dist["flow:" + k] = v
 
     idents = tables.as_param_idents(bdir)
     evaluations = 0
@@ -881,7 +911,31 @@ def run(args):
                                   why="a source without \\{...} that calls a user-defined FUNCTION assembles (rc 0) but fails under -SPLITBYTE (rc=%s): %s" % (rc_s, (so_s + se_s).decode(errors="replace")[-160:]),
                                   source=fsrc, baseline=dict(argv=["-q", "many.asm"]), variant=dict(argv=["-q", "-SPLITBYTE", ":", "-q", "many.asm"])))
 
+        # report options that request additional *warnings* (-u: overlapping memory usage, -r: what forces another pass) under -WERROR
+        for tag, opt, psrc in (("u", ["-u"], "\tcpu z80\n\torg 100h\n\tdb 1,2,3\n\torg 101h\n\tdb 9\n"),
+                               ("r", ["-r"], "\tcpu 6502\n\torg $200\n\tlda fwd\n\tjmp fwd\n\torg $80\nfwd:\tnop\n")):
+            f = os.path.join(wd, "werr_%s.asm" % tag)
+            open(f, "w").write(psrc)
+            outs = {}
+            for name, extra in (("plain", []), ("opt", opt), ("werror", ["-WERROR"]), ("both", opt + ["-WERROR"])):
+                outp = os.path.join(wd, "werr_%s_%s.p" % (tag, name))
+                rc, so, se = run_asl(bdir, wd, ["-q"] + extra + ["-q", f, "-o", outp])
+                evaluations += 1
+                outs[name] = (rc, open(outp, "rb").read() if os.path.exists(outp) else None, (so + se).decode(errors="replace")[-200:])
+            bump("finding_probe:%s_werror_rc_%s" % (tag, outs["both"][0]))
+            if outs["plain"][:2] != outs["opt"][:2]:
+                spec_fail.append(dict(tag="report-options:werror-probe", sig=None, why="-%s alone changes the code file / exit status" % tag, source=psrc,
+                                      baseline=dict(argv=["-q", "many.asm"]), variant=dict(argv=["-q"] + opt + ["-q", "many.asm"])))
+            elif outs["werror"][0] == 0 and outs["werror"][:2] != outs["both"][:2]:
+                spec_fail.append(dict(tag="report-options:werror-probe", sig="report-option-warning-becomes-error-under-werror",
+                                      why="with -WERROR the source assembles (rc 0, code file written); adding the report option -%s gives rc=%s and %s code file: %s"
+                                          % (tag, outs["both"][0], "a different" if outs["both"][1] else "no", outs["both"][2].strip()),
+                                      source=psrc, baseline=dict(argv=["-q", "-WERROR", "-q", "many.asm"]),
+                                      variant=dict(argv=["-q"] + opt + ["-WERROR", "-q", "many.asm"])))
+
     res.coverage = common.proof_coverage(audit, "C17", [
+        "translate/reportflow.py gen_reportflow (clang-14 JSON AST of all translation units of asl: syntactic, flow-insensitive taint inventory; calls through "
+        "function pointers by name, libc by table; joined with the hand-written classification Spec/ReportObjects.lean by Props/C17_Flow.lean)",
         "translate/tables.py gen_asparams (ASParams names via clang AST; handler results on an empty argument via a probe linked against as.c.o)",
         "correspondence (differential testing): cmdarg.o ProcessCMD with logging handlers vs Model/CmdArg.lean; real DreheCodes() vs Model/Drehe.lean; pipeline payload vs real .p",
         "DIFFERENTIAL part (not proof): identical .p across report-option subsets / cwd / -o / LANG / option placement / repeated runs"])
@@ -893,7 +947,10 @@ def run(args):
     res.notes += extra_notes
     res.assumptions = ["the differential part samples configurations (pairwise cover of the report options per source, not all subsets)",
                        "LANG/LC_ALL values without a codeset suffix (C, de_DE, en_US) as in the property statement",
-                       "-h / -SPLITBYTE only for sources without \\{...}"]
+                       "-h / -SPLITBYTE only for sources without \\{...}",
+                       "report-flow inventory: syntactic, flow-insensitive taint over the typed AST of the build configuration in use; calls through "
+                       "function pointers resolved by name, heap objects keyed by record type and field, libc by a table; the printf core and the "
+                       "message emitters are summarised (Spec/ReportObjects.lean); it shows where report options CAN reach, it does not prove C semantics"]
     return common.conclude(res, proof_problems, spec_fail, corr_fail, evaluations)
 
 
